@@ -196,6 +196,14 @@ impl Model {
             .collect();
         for (sid, upd) in missing {
             viol!(self, at, "C09", "missing-notification", "subscription {} did not receive {:?} at the end of this stabilise", sid, upd);
+            // C10: subscribe / unsubscribe / disallow / drop on one observer never affects another
+            // observer of the same node
+            let oid = self.subs[sid].oid;
+            let hid = self.obs[oid].hid;
+            let others: Vec<usize> = self.lifecycle_ops.get(&hid).map(|s| s.iter().copied().filter(|o| *o != oid).collect()).unwrap_or_default();
+            if !others.is_empty() {
+                viol!(self, at, "C10", "other-observer-affected", "subscription {} of observer {} lost {:?} after lifecycle operations on other observers {:?} of the same node", sid, oid, upd, others);
+            }
         }
         self.phase = Phase::Outside;
         self.transient.clear();
@@ -316,6 +324,7 @@ impl Model {
                     viol!(self, at, "C07", "handler-read", "observer {} read from an update handler returned {:?}, the value of this stabilise is {:?}", oid, res, exp);
                 } else {
                     viol!(self, at, "C01", "observer-not-last-result", "observer {} (node {}) returned {:?} but the node's function last produced {:?}", oid, hid, res, exp);
+                    viol!(self, at, "C07", "not-the-stabilised-snapshot", "observer {} (node {}) returned {:?}; the value for the variable assignment current when stabilise was called is {:?}", oid, hid, res, exp);
                 }
             }
             _ => {
